@@ -16,7 +16,8 @@ package rtppack
 
 import "encoding/binary"
 
-// Pkt is one RTP packet (no padding, no extension, no CSRC).
+// Pkt is one RTP packet (no padding). The zero values of CSRC / HasExt give
+// the plain 12-byte header.
 type Pkt struct {
 	PT      uint8
 	Marker  bool
@@ -24,10 +25,28 @@ type Pkt struct {
 	TS      uint32
 	SSRC    uint32
 	Payload []byte
+
+	// CSRC: 0..15 contributing sources, RFC 3550 §5.1 (CC field).
+	CSRC []uint32
+	// Header extension, RFC 3550 §5.3.1: X bit, 16-bit "defined by profile", 16-bit
+	// length counted in 32-bit words (the 4-byte extension header not included),
+	// then the data. len(Ext) must be a multiple of 4 (0 is legal: X=1, length 0).
+	HasExt     bool
+	ExtProfile uint16
+	Ext        []byte
 }
 
-// Marshal renders the 12-byte fixed header of RFC 3550 §5.1 (V=2, P=0, X=0,
-// CC=0) followed by the payload.
+// HeaderLen is the size of the marshalled RTP header.
+func (p Pkt) HeaderLen() int {
+	n := 12 + 4*len(p.CSRC)
+	if p.HasExt {
+		n += 4 + len(p.Ext)
+	}
+	return n
+}
+
+// Marshal renders the fixed header of RFC 3550 §5.1 (V=2, P=0), the CSRC list,
+// the header extension of §5.3.1 when HasExt is set, and the payload.
 //
 //	 0                   1                   2                   3
 //	 0 1 2 3 4 5 6 7 8 9 0 1 2 3 4 5 6 7 8 9 0 1 2 3 4 5 6 7 8 9 0 1
@@ -35,9 +54,18 @@ type Pkt struct {
 //	|V=2|P|X|  CC   |M|     PT      |       sequence number         |
 //	|                           timestamp                           |
 //	|           synchronization source (SSRC) identifier            |
+//	|            contributing source (CSRC) identifiers             |
+//	|      defined by profile       |   length (32-bit words)       |
+//	|                        header extension                       |
 func (p Pkt) Marshal() []byte {
-	b := make([]byte, 12+len(p.Payload))
-	b[0] = 2 << 6
+	if len(p.CSRC) > 15 || len(p.Ext)%4 != 0 || len(p.Ext)/4 > 0xffff {
+		panic("rtppack: illegal CSRC count or header extension length")
+	}
+	b := make([]byte, p.HeaderLen()+len(p.Payload))
+	b[0] = 2<<6 | byte(len(p.CSRC))
+	if p.HasExt {
+		b[0] |= 0x10
+	}
 	b[1] = p.PT & 0x7f
 	if p.Marker {
 		b[1] |= 0x80
@@ -45,7 +73,18 @@ func (p Pkt) Marshal() []byte {
 	binary.BigEndian.PutUint16(b[2:], p.Seq)
 	binary.BigEndian.PutUint32(b[4:], p.TS)
 	binary.BigEndian.PutUint32(b[8:], p.SSRC)
-	copy(b[12:], p.Payload)
+	off := 12
+	for _, c := range p.CSRC {
+		binary.BigEndian.PutUint32(b[off:], c)
+		off += 4
+	}
+	if p.HasExt {
+		binary.BigEndian.PutUint16(b[off:], p.ExtProfile)
+		binary.BigEndian.PutUint16(b[off+2:], uint16(len(p.Ext)/4))
+		off += 4
+		off += copy(b[off:], p.Ext)
+	}
+	copy(b[off:], p.Payload)
 	return b
 }
 
